@@ -14,8 +14,12 @@ Contents:
     (the step is a hypothesis in the shape of `FlatLex.step_scalar`), positions included;
   * NUMBER lexemes of ANY spelling (`NumParts`: sign, digits, optional `.digits*`, optional `[eE][+-]?digits` — leading zeros,
     `-0`, `1.`, `1e5`, `1E+5` included; `NumberLex` has the emitter's spellings only): `Scan.number` stops exactly at the
-    end, no VERSION pattern matches, `numberMatch` converts with `int()` / `float()`, one `step` gives one NUMBER token
-    (`step_numParts`); `pyNumberFull_shape`: every text accepted by `pyNumberFull` has such parts.
+    end (`number_numParts`), no VERSION pattern matches (`versions_none_numParts`), `numberMatch` converts with `int()` /
+    `float()` and refuses beyond 4300 digits / on overflow (`numberMatch_numParts`), one `step` gives one NUMBER token
+    (`step_numParts`) or the positioned refusal (`step_numParts_refused`);
+  * `pyNumberFull_shape`: every text accepted by `pyNumberFull` has such parts; `gbnfNumber` (the language of the compiled
+    TYPE[NUMBER] fragment, `-`? digit+ (`.` digit+)?) and `gbnfNumber_pyNumberFull`;
+  * `tokenize_field_refused`: a refusal of the value step is `tokenize`'s refusal, at line 2, column `1 + |F| + 2`.
 -/
 namespace Octave.C13
 open Octave Lexer Scan Emitter
@@ -59,6 +63,7 @@ def pyNumberFull (s : Str) : Bool :=
   match s1 with
   | c :: _ => isDigit c && pyNumberTail (dropDigits s1)
   | [] => false
+
 -- END COPY
 
 theorem isDigit_eq_isDigitA : isDigit = isDigitA := rfl
@@ -119,5 +124,872 @@ def KeyOK (F : Str) : Prop := isIdentifierText F = true ∧ hasReservedPrefix F 
 instance (F : Str) : Decidable (KeyOK F) := by unfold KeyOK; infer_instance
 
 theorem KeyOK.noNl {F : Str} (h : KeyOK F) : ∀ d ∈ F, d ≠ '\n' := fun d hd => (identText_clean F h.1 d hd).1
+
+/-! ### the lexer on the one-field document, for a value that is one scalar token -/
+
+theorem run_of_step {env : Env} {lenient : Bool} {st st1 : LState} {s s1 : Str} (hne : s ≠ [])
+    (h : step env lenient st s = .ok (st1, s1)) : Run env lenient 1 st s st1 s1 := by
+  obtain ⟨c, r, rfl⟩ := List.exists_cons_of_ne_nil hne
+  exact Run.one h
+
+/-- the line `F::value` as the parser half describes it (line 2, column 1; the value text is `n` characters long). -/
+def fieldLine (F : Str) (sc : FlatParse.Scalar) (n : Nat) : FlatParse.Line :=
+  { key := F, v := sc, l := 2, c1 := 1, c2 := 1 + F.length, c3 := 1 + F.length + 2, c4 := 1 + F.length + 2 + n }
+
+/-- "one lexer step reads `s`, followed by the line end, as the one scalar token `sc`" — the shape of `FlatLex.step_scalar`. -/
+def ValueStep (env : Env) (lenient : Bool) (s : Str) (sc : FlatParse.Scalar) : Prop :=
+  ∀ (st : LState) (rest : Str), Ready st → ∃ st' p, step env lenient st (s ++ '\n' :: rest) = .ok (st', '\n' :: rest) ∧
+    Adv st st' [sc.tok st.line st.col] [] 0 (st.col + s.length) p
+
+theorem fieldText_shape (F s : Str) :
+    fieldText F s = "===".toList ++ "D".toList ++ "===".toList ++
+      ('\n' :: (F ++ (':' :: ':' :: (s ++ '\n' :: ("===END===".toList ++ ['\n']))))) := by
+  rw [fieldText_eq, lit_env]
+  simp only [List.append_assoc, List.cons_append]
+
+theorem run_field (env : Env) (lenient : Bool) (F s : Str) (sc : FlatParse.Scalar) (hF : KeyOK F)
+    (hstep : ValueStep env lenient s sc) :
+    ∃ n st', Run env lenient n ({ spans := [] } : LState) (fieldText F s) st' [] ∧
+      st'.toks = [tNewline 3 10, tEnvEnd 3 1, tNewline 2 (1 + F.length + 2 + s.length), sc.tok 2 (1 + F.length + 2),
+        tAssign 2 (1 + F.length), tIdent F 2 1, tNewline 1 8, tEnvStart "D".toList 1 1] ∧
+      st'.repairs = (identifierRepairs F 2 1).reverse ∧ st'.stack = [] ∧ st'.line = 4 ∧ st'.col = 1 := by
+  let st0 : LState := { spans := [] }
+  obtain ⟨s1, e1, a1⟩ := step_envStart env lenient st0 "D".toList
+    ('\n' :: (F ++ (':' :: ':' :: (s ++ '\n' :: ("===END===".toList ++ ['\n']))))) rfl (by decide) (by decide)
+  obtain ⟨s2, e2, a2⟩ := step_newline env lenient s1 (F ++ (':' :: ':' :: (s ++ '\n' :: ("===END===".toList ++ ['\n'])))) a1.ready
+  obtain ⟨s3, e3, a3⟩ := step_ident env lenient s2 F (':' :: ':' :: (s ++ '\n' :: ("===END===".toList ++ ['\n']))) a2.ready
+    hF.1 hF.2.1 (termOK_colon env _)
+  obtain ⟨s4, e4, a4⟩ := step_assign env lenient s3 (s ++ '\n' :: ("===END===".toList ++ ['\n'])) a3.ready
+  obtain ⟨s5, p5, e5, a5⟩ := hstep s4 ("===END===".toList ++ ['\n']) a4.ready
+  obtain ⟨s6, e6, a6⟩ := step_newline env lenient s5 ("===END===".toList ++ ['\n']) a5.ready
+  obtain ⟨s7, e7, a7⟩ := step_envEnd env lenient s6 ['\n'] a6.ready
+  obtain ⟨s8, e8, a8⟩ := step_newline env lenient s7 [] a7.ready
+  have hFne : F ≠ [] := by
+    intro h; have := hF.1; rw [h] at this; simp [isIdentifierText] at this
+  have run := Run.trans (run_of_step (by simp) e1) (Run.trans (run_of_step (by simp) e2) (Run.trans (run_of_step (by simp [hFne]) e3)
+    (Run.trans (run_of_step (by simp) e4) (Run.trans (run_of_step (by simp) e5) (Run.trans (run_of_step (by simp) e6)
+    (Run.trans (run_of_step (by decide) e7) (run_of_step (by simp) e8)))))))
+  rw [← fieldText_shape] at run
+  have l1 : s1.line = 1 := by rw [a1.line]
+  have l2 : s2.line = 2 := by rw [a2.line, l1]
+  have l3 : s3.line = 2 := by rw [a3.line, l2]
+  have l4 : s4.line = 2 := by rw [a4.line, l3]
+  have l5 : s5.line = 2 := by rw [a5.line, l4]
+  have l6 : s6.line = 3 := by rw [a6.line, l5]
+  have l7 : s7.line = 3 := by rw [a7.line, l6]
+  have c1 : s1.col = 8 := by rw [a1.col]; rfl
+  have c2 : s2.col = 1 := a2.col
+  have c3 : s3.col = 1 + F.length := by rw [a3.col, c2]
+  have c4 : s4.col = 1 + F.length + 2 := by rw [a4.col, c3]
+  have c5 : s5.col = 1 + F.length + 2 + s.length := by rw [a5.col, c4]
+  have c6 : s6.col = 1 := a6.col
+  have c7 : s7.col = 10 := by rw [a7.col, c6]
+  refine ⟨_, s8, run, ?_, ?_, ?_, ?_, a8.col⟩
+  · rw [a8.toks, a7.toks, a6.toks, a5.toks, a4.toks, a3.toks, a2.toks, a1.toks, l1, l2, l3, l4, l5, l6, l7, c1, c2, c3, c4, c5, c6, c7]
+    rfl
+  · rw [a8.repairs, a7.repairs, a6.repairs, a5.repairs, a4.repairs, a3.repairs, a2.repairs, a1.repairs, l2, c2]
+    simp only [List.nil_append]
+    exact List.append_nil _
+  · rw [a8.stack, a7.stack, a6.stack, a5.stack, a4.stack, a3.stack, a2.stack, a1.stack]
+  · rw [a8.line, l7]
+
+theorem fieldText_noTab (F s : Str) (hF : KeyOK F) (hclean : Clean s) : ∀ d ∈ fieldText F s, d ≠ '\t' := by
+  intro d hd
+  rw [fieldText_eq] at hd
+  simp only [List.mem_append, List.mem_cons] at hd
+  rcases hd with h | h | (h | h | h | h) | h | h | h
+  · intro he; subst he; revert h; decide
+  · subst h; decide
+  · exact (identText_clean F hF.1 d h).2
+  · subst h; decide
+  · subst h; decide
+  · exact (hclean d h).2
+  · subst h; decide
+  · intro he; subst he; revert h; decide
+  · intro he; subst he; simp at h
+
+/-- `fieldText F s` has no fence line: `normalize` returns it unchanged, with no fence span. -/
+theorem normalize_field (env : Env) (F s : Str) (hF : KeyOK F) (hclean : Clean s) (hnfc : NfcStable env F s) :
+    normalize env (fieldText F s) = .ok (fieldText F s, []) := by
+  have hsplit := splitLines_fieldText F s hF.noNl (fun d hd => (hclean d hd).1)
+  have hfence : ∀ l ∈ splitLines (fieldText F s), fenceLine l = none ∧ env.nfc l = l := by
+    intro l hl
+    rw [hsplit] at hl
+    refine ⟨?_, hnfc l hl⟩
+    simp only [fieldLines, List.mem_cons, List.mem_nil_iff, or_false] at hl
+    rcases hl with h | h | h | h
+    · subst h; decide
+    · subst h
+      apply fenceLine_none_of_head
+      intro c hc
+      apply identText_head F hF.1 c
+      have hFne : F ≠ [] := by
+        intro h; have := hF.1; rw [h] at this; simp [isIdentifierText] at this
+      obtain ⟨k, t, hk⟩ := List.exists_cons_of_ne_nil hFne
+      rw [hk] at hc ⊢
+      exact hc
+    · subst h; decide
+    · subst h; decide
+  exact normalize_plain env _ hfence
+
+/-- **the lexer on the one-field document**, for any value text that one step reads as one scalar token: exactly the
+nine tokens `ENVELOPE_START NEWLINE IDENTIFIER ASSIGN value NEWLINE ENVELOPE_END NEWLINE EOF`, positions included, and no
+receipt other than the identifier notes of the key. -/
+theorem tokenize_field (env : Env) (lenient : Bool) (F s : Str) (sc : FlatParse.Scalar) (hF : KeyOK F) (hclean : Clean s)
+    (hstep : ValueStep env lenient s sc) (hnfc : NfcStable env F s) :
+    tokenize env (fieldText F s) lenient
+      = .ok (FlatParse.flatToks (flatFrame "D".toList 1) "D".toList [fieldLine F sc s.length], identifierRepairs F 2 1) := by
+  have hnorm := normalize_field env F s hF hclean hnfc
+  have htab := tabCheck_noTab [] (fieldText F s) 0 1 1 (fieldText_noTab F s hF hclean)
+  obtain ⟨n, st', run, ht, hr, hs, hl, hc⟩ := run_field env lenient F s sc hF hstep
+  have hloop := loop_of_run env lenient n _ st' (fieldText F s) run (by intro sp hsp; simp at hsp)
+  unfold tokenize
+  simp only [hnorm, htab, hloop, bind, Except.bind, hs, List.getLast?_nil, ht, hr, hl, hc, List.reverse_reverse]
+  rfl
+
+/-! ### NUMBER lexemes of any spelling -/
+
+/-- the parts of a full match of `-?\d+\.?\d*(?:[eE][+-]?\d+)?` (ASCII digits). -/
+structure NumParts where
+  neg : Bool
+  d1 : Str
+  /-- the digits after `.` (possibly none: `1.`), if there is a `.` -/
+  frac : Option Str
+  /-- exponent letter, sign text (empty, `+` or `-`), exponent digits -/
+  exp : Option (Char × Str × Str)
+
+def fracS : Option Str → Str
+  | none => []
+  | some d2 => '.' :: d2
+def expS : Option (Char × Str × Str) → Str
+  | none => []
+  | some (e, sg, ed) => e :: (sg ++ ed)
+def NumParts.text (p : NumParts) : Str := signStr p.neg ++ (p.d1 ++ (fracS p.frac ++ expS p.exp))
+
+structure NumParts.OK (p : NumParts) : Prop where
+  d1 : Digits p.d1
+  frac : ∀ d2, p.frac = some d2 → ∀ x ∈ d2, isDigitA x = true
+  exp : ∀ e sg ed, p.exp = some (e, sg, ed) → (e = 'e' ∨ e = 'E') ∧ (sg = [] ∨ sg = ['+'] ∨ sg = ['-']) ∧ Digits ed
+
+theorem isDigit_E (env : Env) : env.isDigit 'E' = false := isDigit_ascii_false env 'E' (by decide) (by decide)
+
+theorem digits_head_isDigit {ed : Str} (h : Digits ed) (env : Env) (tail : Str) :
+    ∀ c, (ed ++ tail).head? = some c → env.isDigit c = true := by
+  obtain ⟨d, t, hdt⟩ := List.exists_cons_of_ne_nil h.1
+  intro c hc
+  rw [hdt] at hc
+  have : d = c := by simpa using hc
+  subst this
+  exact h.env env d (by rw [hdt]; simp)
+
+/-- exponent `[eE][+-]?digits`, any of the six spellings. -/
+theorem expPart_gen (env : Env) (mant : Str) (e : Char) (sg ed rest : Str) (he : e = 'e' ∨ e = 'E')
+    (hsg : sg = [] ∨ sg = ['+'] ∨ sg = ['-']) (hed : Digits ed) (hr : ∀ c, rest.head? = some c → env.isDigit c = false) :
+    expPart env mant (e :: (sg ++ ed ++ rest)) = some (mant ++ e :: (sg ++ ed), rest) := by
+  have ho : optChar (fun c => c == '+' || c == '-') (sg ++ ed ++ rest) = (sg, ed ++ rest) := by
+    rcases hsg with h | h | h
+    · subst h
+      apply optChar_miss
+      intro c hc
+      have hd := digits_head_isDigit hed env rest c (by simpa using hc)
+      cases hcp : (c == '+' || c == '-') with
+      | false => rfl
+      | true =>
+        simp only [Bool.or_eq_true, beq_iff_eq] at hcp
+        rcases hcp with h | h <;> subst h
+        · rw [isDigit_plus] at hd; cases hd
+        · rw [isDigit_dash] at hd; cases hd
+    · subst h; rfl
+    · subst h; rfl
+  have hee : (e == 'e' || e == 'E') = true := by rcases he with h | h <;> subst h <;> rfl
+  unfold expPart
+  simp only [ho, many1_digits env ed rest hed.1 (hed.env env) hr, hee, if_true]
+  simp
+
+theorem expS_head (env : Env) (exp : Option (Char × Str × Str)) (rest : Str)
+    (hexp : ∀ e sg ed, exp = some (e, sg, ed) → (e = 'e' ∨ e = 'E') ∧ (sg = [] ∨ sg = ['+'] ∨ sg = ['-']) ∧ Digits ed)
+    (hterm : FloatTerm env rest) :
+    ∀ c, (expS exp ++ rest).head? = some c → env.isDigit c = false ∧ c ≠ '.' ∧ c ≠ '-' ∧ c ≠ '+' := by
+  intro c hc
+  cases exp with
+  | none =>
+    have := hterm c (by simpa [expS] using hc)
+    exact ⟨this.1, this.2.1, this.2.2.2.2.1, this.2.2.2.2.2⟩
+  | some x =>
+    obtain ⟨e, sg, ed⟩ := x
+    have he := (hexp e sg ed rfl).1
+    have : e = c := by simpa [expS] using hc
+    subst this
+    rcases he with h | h <;> subst h
+    · exact ⟨isDigit_e env, by decide, by decide, by decide⟩
+    · exact ⟨isDigit_E env, by decide, by decide, by decide⟩
+
+/-- the exponent part after any mantissa. -/
+theorem expPart_expS (env : Env) (mant : Str) (exp : Option (Char × Str × Str)) (rest : Str)
+    (hexp : ∀ e sg ed, exp = some (e, sg, ed) → (e = 'e' ∨ e = 'E') ∧ (sg = [] ∨ sg = ['+'] ∨ sg = ['-']) ∧ Digits ed)
+    (hterm : NumTerm env rest) :
+    expPart env mant (expS exp ++ rest) = some (mant ++ expS exp, rest) := by
+  cases exp with
+  | none =>
+    simp only [expS, List.nil_append, List.append_nil]
+    exact expPart_stop env mant rest (fun c hc => ⟨(hterm c hc).2.2.1, (hterm c hc).2.2.2⟩)
+  | some x =>
+    obtain ⟨e, sg, ed⟩ := x
+    obtain ⟨he, hsg, hed⟩ := hexp e sg ed rfl
+    have := expPart_gen env mant e sg ed rest he hsg hed (fun c hc => (hterm c hc).1)
+    simpa [expS, List.append_assoc] using this
+
+theorem NumParts.text_append (p : NumParts) (rest : Str) :
+    p.text ++ rest = signStr p.neg ++ (p.d1 ++ (fracS p.frac ++ (expS p.exp ++ rest))) := by
+  simp [NumParts.text, List.append_assoc]
+
+/-- **`Scan.number` on any NUMBER lexeme followed by a terminator matches exactly the lexeme.** -/
+theorem number_numParts (env : Env) (p : NumParts) (hp : p.OK) (rest : Str) (hterm : FloatTerm env rest) :
+    number env (p.text ++ rest) = some (p.text, rest) := by
+  obtain ⟨neg, d1, frac, exp⟩ := p
+  obtain ⟨h1, hf, he⟩ := hp
+  have hhead := expS_head env exp rest he hterm
+  rw [NumParts.text_append]
+  cases frac with
+  | some d2 =>
+    have e : fracS (some d2) ++ (expS exp ++ rest) = '.' :: (d2 ++ (expS exp ++ rest)) := rfl
+    simp only [e]
+    rw [number_dot env neg d1 d2 _ h1.1 (h1.env env) (fun x hx => isDigit_of_isDigitA env x (hf d2 rfl x hx))
+        (fun c hc => (hhead c hc).1),
+      expPart_expS env _ exp rest he hterm.num]
+    simp [NumParts.text, fracS, List.append_assoc]
+  | none =>
+    have e : fracS none ++ (expS exp ++ rest) = expS exp ++ rest := rfl
+    simp only [e]
+    rw [number_nodot env neg d1 _ h1.1 (h1.env env) (fun c hc => ⟨(hhead c hc).1, (hhead c hc).2.1⟩),
+      expPart_expS env _ exp rest he hterm.num]
+    simp [NumParts.text, fracS, List.append_assoc]
+
+/-- `digits.` followed by a non-digit is not `\d+\.\d+`. -/
+theorem twoParts_dot_nodigit (env : Env) (d1 tail : Str) (hne : d1 ≠ []) (hd1 : ∀ x ∈ d1, env.isDigit x = true)
+    (ht : ∀ c, tail.head? = some c → env.isDigit c = false) :
+    twoParts env (d1 ++ '.' :: tail) = none := by
+  unfold twoParts
+  rw [many1_digits env d1 ('.' :: tail) hne hd1 (fun c hc => by
+    have : c = '.' := by simpa using hc.symm
+    subst this; exact isDigit_dot env)]
+  simp only [many1_none env.isDigit tail ht]
+
+/-- an unsigned NUMBER lexeme followed by a float terminator is not a VERSION. -/
+theorem versions_none_numParts (env : Env) (p : NumParts) (hp : p.OK) (hneg : p.neg = false) (rest : Str)
+    (hterm : FloatTerm env rest) :
+    version3 env (p.text ++ rest) = none ∧ version2pre env (p.text ++ rest) = none ∧
+      version2build env (p.text ++ rest) = none := by
+  obtain ⟨neg, d1, frac, exp⟩ := p
+  obtain ⟨h1, hf, he⟩ := hp
+  simp only at hneg
+  subst hneg
+  have hhead := expS_head env exp rest he hterm
+  rw [NumParts.text_append]
+  simp only [signStr, Bool.false_eq_true, if_false, List.nil_append]
+  cases frac with
+  | none =>
+    have e : fracS none ++ (expS exp ++ rest) = expS exp ++ rest := rfl
+    simp only [e]
+    exact versions_none_nodot env d1 _ h1.1 (h1.env env) (fun c hc => ⟨(hhead c hc).1, (hhead c hc).2.1⟩)
+  | some d2 =>
+    have e : fracS (some d2) ++ (expS exp ++ rest) = '.' :: (d2 ++ (expS exp ++ rest)) := rfl
+    simp only [e]
+    have hd2 : ∀ x ∈ d2, env.isDigit x = true := fun x hx => isDigit_of_isDigitA env x (hf d2 rfl x hx)
+    by_cases hne2 : d2 = []
+    · subst hne2
+      have h := twoParts_dot_nodigit env d1 (expS exp ++ rest) h1.1 (h1.env env) (fun c hc => (hhead c hc).1)
+      simp only [List.nil_append]
+      refine ⟨?_, ?_, ?_⟩
+      · unfold version3; rw [h]
+      · unfold version2pre; rw [h]
+      · unfold version2build; rw [h]
+    · exact versions_none_dot env d1 d2 _ h1.1 (h1.env env) hne2 hd2 hhead
+
+/-- the pattern loop on a NUMBER lexeme: NUMBER is the pattern that matches, on exactly the lexeme. -/
+theorem matchPattern_numParts (env : Env) (prev : Option Char) (p : NumParts) (hp : p.OK) (rest : Str)
+    (hterm : FloatTerm env rest) :
+    matchPattern env false prev (p.text ++ rest) = numberMatch env p.text rest := by
+  have hn := number_numParts env p hp rest hterm
+  obtain ⟨d, t, hdt⟩ := List.exists_cons_of_ne_nil hp.d1.1
+  have hd : env.isDigit d = true := hp.d1.env env d (by rw [hdt]; simp)
+  cases hneg : p.neg with
+  | true =>
+    have e : p.text ++ rest = '-' :: d :: (t ++ (fracS p.frac ++ (expS p.exp ++ rest))) := by
+      rw [NumParts.text_append, hneg, hdt]; simp [signStr]
+    rw [e] at hn ⊢
+    exact matchPattern_dash env prev d _ _ _ hd hn
+  | false =>
+    obtain ⟨h3, h2p, h2b⟩ := versions_none_numParts env p hp hneg rest hterm
+    refine matchPattern_digit env prev _ _ _ ?_ ?_ h3 h2p h2b hn
+    · intro c hc
+      rw [NumParts.text_append, hneg, hdt] at hc
+      have : d = c := by simpa [signStr] using hc
+      subst this; exact hd
+    · rw [NumParts.text_append, hneg, hdt]; simp [signStr]
+
+
+/-! ### the conversion: `int()` / `float()` -/
+
+/-- decimal value of a digit string (ASCII), environment-free. -/
+def decVal : Str → Nat → Nat
+  | [], acc => acc
+  | c :: cs, acc => decVal cs (acc * 10 + (c.toNat - 48))
+
+theorem digitsVal_decVal (env : Env) (ds : Str) (h : ∀ c ∈ ds, isDigitA c = true) (acc : Nat) :
+    digitsVal env ds acc = decVal ds acc := by
+  induction ds generalizing acc with
+  | nil => rfl
+  | cons c cs ih =>
+    rw [digitsVal, decVal, digit?_of_isDigitA env c (h c (by simp)), ih (fun x hx => h x (by simp [hx]))]
+    rfl
+
+/-- no `.`, `e`, `E` in the lexeme: the lexer converts with `int()`, otherwise with `float()`. -/
+def isIntLexeme (s : Str) : Bool := !(s.contains '.' || s.contains 'e' || s.contains 'E')
+
+/-- the integer an int lexeme `-?digits` denotes (`-0` is `0`, `007` is `7`). -/
+def intOfText (s : Str) : Int :=
+  match s with
+  | '-' :: r => -((decVal r 0 : Nat) : Int)
+  | _ => ((decVal s 0 : Nat) : Int)
+
+/-- number of digits of an int lexeme (what CPython's `int_max_str_digits` limit counts: leading zeros included). -/
+def digitCount (s : Str) : Nat :=
+  match s with
+  | '-' :: r => r.length
+  | _ => s.length
+
+theorem NumParts.mem (p : NumParts) (hp : p.OK) (x : Char) (hx : x ∈ p.text) :
+    x = '-' ∨ x = '.' ∨ x = 'e' ∨ x = 'E' ∨ x = '+' ∨ isDigitA x = true := by
+  obtain ⟨neg, d1, frac, exp⟩ := p
+  obtain ⟨h1, hf, he⟩ := hp
+  simp only [NumParts.text, List.mem_append] at hx
+  rcases hx with h | h | h | h
+  · left
+    unfold signStr at h
+    split at h <;> simp at h
+    exact h
+  · exact Or.inr (Or.inr (Or.inr (Or.inr (Or.inr (h1.2 x h)))))
+  · cases frac with
+    | none => simp [fracS] at h
+    | some d2 =>
+      simp only [fracS, List.mem_cons] at h
+      rcases h with h | h
+      · exact Or.inr (Or.inl h)
+      · exact Or.inr (Or.inr (Or.inr (Or.inr (Or.inr (hf d2 rfl x h)))))
+  · cases exp with
+    | none => simp [expS] at h
+    | some se =>
+      obtain ⟨e, sg, ed⟩ := se
+      obtain ⟨hee, hsg, h3⟩ := he e sg ed rfl
+      simp only [expS, List.mem_cons, List.mem_append] at h
+      rcases h with h | h | h
+      · rcases hee with h' | h'
+        · exact Or.inr (Or.inr (Or.inl (h.trans h')))
+        · exact Or.inr (Or.inr (Or.inr (Or.inl (h.trans h'))))
+      · rcases hsg with hs | hs | hs <;> subst hs
+        · simp at h
+        · exact Or.inr (Or.inr (Or.inr (Or.inr (Or.inl (by simpa using h)))))
+        · exact Or.inl (by simpa using h)
+      · exact Or.inr (Or.inr (Or.inr (Or.inr (Or.inr (h3.2 x h)))))
+
+theorem NumParts.not_mem (p : NumParts) (hp : p.OK) (c : Char) (h1 : c ≠ '-') (h2 : c ≠ '.') (h3 : c ≠ 'e') (h3' : c ≠ 'E')
+    (h4 : c ≠ '+') (h5 : isDigitA c = false) : ∀ x ∈ p.text, x ≠ c := by
+  intro x hx e
+  subst e
+  rcases p.mem hp x hx with h | h | h | h | h | h
+  · exact h1 h
+  · exact h2 h
+  · exact h3 h
+  · exact h3' h
+  · exact h4 h
+  · rw [h] at h5; cases h5
+
+theorem NumParts.ne_nil (p : NumParts) (hp : p.OK) : p.text ≠ [] := by
+  have := hp.d1.1
+  simp [NumParts.text, this]
+
+theorem NumParts.clean (p : NumParts) (hp : p.OK) : Clean p.text := fun d hd =>
+  ⟨p.not_mem hp '\n' (by decide) (by decide) (by decide) (by decide) (by decide) (by decide) d hd,
+   p.not_mem hp '\t' (by decide) (by decide) (by decide) (by decide) (by decide) (by decide) d hd⟩
+
+/-- an int lexeme is exactly one without fraction and exponent. -/
+theorem NumParts.isInt_iff (p : NumParts) (hp : p.OK) : isIntLexeme p.text = true ↔ p.frac = none ∧ p.exp = none := by
+  obtain ⟨neg, d1, frac, exp⟩ := p
+  constructor
+  · intro h
+    simp only [isIntLexeme, Bool.not_eq_true', Bool.or_eq_false_iff] at h
+    obtain ⟨⟨hdot, he⟩, hE⟩ := h
+    constructor
+    · cases frac with
+      | none => rfl
+      | some d2 =>
+        exfalso
+        have : ('.' : Char) ∈ (NumParts.mk neg d1 (some d2) exp).text := by simp [NumParts.text, fracS]
+        rw [contains_true _ _ this] at hdot; cases hdot
+    · cases exp with
+      | none => rfl
+      | some se =>
+        exfalso
+        obtain ⟨e, sg, ed⟩ := se
+        have hm : e ∈ (NumParts.mk neg d1 frac (some (e, sg, ed))).text := by simp [NumParts.text, expS]
+        rcases (hp.exp e sg ed rfl).1 with h | h <;> subst h
+        · rw [contains_true _ _ hm] at he; cases he
+        · rw [contains_true _ _ hm] at hE; cases hE
+  · rintro ⟨hf, he⟩
+    simp only at hf he
+    subst hf; subst he
+    have hnot : ∀ c : Char, c ≠ '-' → isDigitA c = false → (NumParts.mk neg d1 none none).text.contains c = false := by
+      intro c hc hd
+      apply contains_false
+      intro x hx e
+      subst e
+      simp only [NumParts.text, fracS, expS, List.append_nil, List.mem_append] at hx
+      rcases hx with h | h
+      · unfold signStr at h
+        split at h <;> simp at h
+        exact hc h
+      · rw [hp.d1.2 x h] at hd; cases hd
+    simp only [isIntLexeme, hnot '.' (by decide) (by decide), hnot 'e' (by decide) (by decide),
+      hnot 'E' (by decide) (by decide), Bool.or_self, Bool.not_false]
+
+theorem digits_no_dash {ds : Str} (h : Digits ds) : ∀ r, ds ≠ '-' :: r := by
+  intro r e
+  have := h.2 '-' (by rw [e]; simp)
+  revert this; decide
+
+/-- `int(lexeme)` on `-?digits`. -/
+theorem intOfLexeme_signed (env : Env) (neg : Bool) (ds : Str) (h : Digits ds) :
+    intOfLexeme env (signStr neg ++ ds) =
+      if digitCount (signStr neg ++ ds) > 4300 then .error (.py "ValueError".toList) else .ok (intOfText (signStr neg ++ ds)) := by
+  cases neg with
+  | true =>
+    show intOfLexeme env ('-' :: ds) = _
+    rw [intOfLexeme_neg_digits, digitsVal_decVal env ds h.2]
+    rfl
+  | false =>
+    show intOfLexeme env ds = if digitCount ds > 4300 then _ else .ok (intOfText ds)
+    rw [intOfLexeme_digits env ds h.2, digitsVal_decVal env ds h.2]
+    have e1 : digitCount ds = ds.length := by
+      unfold digitCount; split
+      · next r => exact absurd rfl (digits_no_dash h r)
+      · rfl
+    have e2 : intOfText ds = ((decVal ds 0 : Nat) : Int) := by
+      unfold intOfText; split
+      · next r => exact absurd rfl (digits_no_dash h r)
+      · rfl
+    rw [e1, e2]
+
+/-- the scalar token a NUMBER lexeme becomes: an `int` when it has no `.`/`e`/`E`, else the float `repr(float(s))`;
+`raw` is the lexeme. -/
+def numScalar (env : Env) (s : Str) : FlatParse.Scalar :=
+  if isIntLexeme s then .int (intOfText s) s else .float (env.floatRepr s) s
+
+/-- the lexeme is representable: an int lexeme has at most 4300 digits (CPython's `int_max_str_digits`; beyond it `int()`
+raises — finding C13N3), a float lexeme does not overflow to `inf` (the lexer refuses an overflow — finding C13N4). -/
+def Representable (env : Env) (s : Str) : Prop :=
+  if isIntLexeme s then digitCount s ≤ 4300 else env.floatRepr s ≠ "inf".toList ∧ env.floatRepr s ≠ "-inf".toList
+
+/-- **`numberMatch` on a NUMBER lexeme**: `int()` for `-?digits`, refusing beyond 4300 digits; `float()` otherwise, refusing
+an overflow. -/
+theorem numberMatch_numParts (env : Env) (p : NumParts) (hp : p.OK) (rest : Str) :
+    numberMatch env p.text rest =
+      if isIntLexeme p.text then
+        (if digitCount p.text > 4300 then .error (.py "ValueError".toList)
+         else .ok (some (mNumber (.int (intOfText p.text)) p.text rest)))
+      else
+        (if env.floatRepr p.text == "inf".toList || env.floatRepr p.text == "-inf".toList then .error (.py "OverflowToInf".toList)
+         else .ok (some (mNumber (.float (env.floatRepr p.text)) p.text rest))) := by
+  cases hi : isIntLexeme p.text with
+  | true =>
+    obtain ⟨hf, he⟩ := (p.isInt_iff hp).mp hi
+    have hc : (p.text.contains '.' || p.text.contains 'e' || p.text.contains 'E') = false := by
+      simp only [isIntLexeme, Bool.not_eq_true'] at hi; exact hi
+    have ht : p.text = signStr p.neg ++ p.d1 := by simp [NumParts.text, hf, he, fracS, expS]
+    unfold numberMatch
+    rw [hc]
+    simp only [Bool.false_eq_true, if_false, if_true]
+    rw [ht, intOfLexeme_signed env p.neg p.d1 hp.d1]
+    by_cases hlen : digitCount (signStr p.neg ++ p.d1) > 4300
+    · rw [if_pos hlen, if_pos hlen]
+    · rw [if_neg hlen, if_neg hlen]; rfl
+  | false =>
+    have hc : (p.text.contains '.' || p.text.contains 'e' || p.text.contains 'E') = true := by
+      simp only [isIntLexeme, Bool.not_eq_false'] at hi; exact hi
+    unfold numberMatch
+    rw [if_pos hc]
+    simp only [Bool.false_eq_true, if_false]
+    split <;> rfl
+
+/-- **any representable NUMBER lexeme: one NUMBER token** carrying `int(lexeme)` resp. `repr(float(lexeme))`, `raw` = the
+lexeme, no receipt; any state between tokens, both lexer modes, any float terminator. -/
+theorem step_numParts (env : Env) (lenient : Bool) (st : LState) (p : NumParts) (hp : p.OK) (rest : Str) (hr : Ready st)
+    (hterm : FloatTerm env rest) (hrep : Representable env p.text) :
+    ∃ st', step env lenient st (p.text ++ rest) = .ok (st', rest) ∧
+      Adv st st' [(numScalar env p.text).tok st.line st.col] [] 0 (st.col + p.text.length) p.text.getLast? := by
+  have hnl : ∀ d ∈ p.text, d ≠ '\n' := fun d hd => (p.clean hp d hd).1
+  have hsp : p.text.head? ≠ some ' ' := by
+    intro hh
+    exact p.not_mem hp ' ' (by decide) (by decide) (by decide) (by decide) (by decide) (by decide) ' '
+      (List.mem_of_mem_head? hh) rfl
+  have hmp := matchPattern_numParts env st.prev p hp rest hterm
+  rw [numberMatch_numParts env p hp rest] at hmp
+  unfold Representable at hrep
+  unfold numScalar
+  cases hi : isIntLexeme p.text with
+  | true =>
+    rw [hi] at hmp hrep
+    simp only [if_true] at hmp hrep
+    rw [if_neg (by omega)] at hmp
+    exact step_number env lenient st _ p.text rest hr (p.ne_nil hp) hnl hsp hmp
+  | false =>
+    rw [hi] at hmp hrep
+    simp only [Bool.false_eq_true, if_false] at hmp hrep
+    have hb : (env.floatRepr p.text == "inf".toList || env.floatRepr p.text == "-inf".toList) = false := by
+      simp only [Bool.or_eq_false_iff, beq_eq_false_iff_ne, ne_eq]
+      exact hrep
+    rw [hb] at hmp
+    simp only [Bool.false_eq_true, if_false] at hmp
+    exact step_number env lenient st _ p.text rest hr (p.ne_nil hp) hnl hsp hmp
+
+/-- beyond the digit limit / on overflow the lexer refuses with a positioned `LexerError` E005 at the lexeme. -/
+theorem step_numParts_refused (env : Env) (lenient : Bool) (st : LState) (p : NumParts) (hp : p.OK) (rest : Str) (hr : Ready st)
+    (hterm : FloatTerm env rest) (hrep : ¬ Representable env p.text) :
+    step env lenient st (p.text ++ rest) = .error (.lexer "E005".toList st.line st.col) := by
+  have hmp := matchPattern_numParts env st.prev p hp rest hterm
+  rw [numberMatch_numParts env p hp rest] at hmp
+  unfold Representable at hrep
+  obtain ⟨c, t, hlex⟩ := List.exists_cons_of_ne_nil (p.ne_nil hp)
+  have hc : c ≠ ' ' := by
+    intro e
+    exact p.not_mem hp ' ' (by decide) (by decide) (by decide) (by decide) (by decide) (by decide) ' '
+      (by rw [hlex, e]; simp) rfl
+  have herr : ∃ e, matchPattern env false st.prev (p.text ++ rest) = .error e := by
+    cases hi : isIntLexeme p.text with
+    | true =>
+      rw [hi] at hmp hrep
+      simp only [if_true] at hmp hrep
+      rw [if_pos (by omega)] at hmp
+      exact ⟨_, hmp⟩
+    | false =>
+      rw [hi] at hmp hrep
+      simp only [Bool.false_eq_true, if_false] at hmp hrep
+      have hb : (env.floatRepr p.text == "inf".toList || env.floatRepr p.text == "-inf".toList) = true := by
+        cases h1 : (env.floatRepr p.text == "inf".toList) with
+        | true => rfl
+        | false =>
+          cases h2 : (env.floatRepr p.text == "-inf".toList) with
+          | true => rfl
+          | false =>
+            exfalso; apply hrep
+            exact ⟨by simpa using h1, by simpa using h2⟩
+      rw [hb] at hmp
+      exact ⟨_, hmp⟩
+  obtain ⟨e, he⟩ := herr
+  rw [hlex] at he ⊢
+  rw [← hr.blank] at he
+  exact pattern_step_error env lenient st c (t ++ rest) e hr.noSpan hc he
+
+
+/-! ### `pyNumberFull` texts have such parts -/
+
+theorem dropDigits_nil_digits (r : Str) (h : (dropDigits r).isEmpty = true) : ∀ x ∈ r, isDigitA x = true := by
+  induction r with
+  | nil => intro x hx; simp at hx
+  | cons c cs ih =>
+    by_cases hc : isDigit c = true
+    · have e : dropDigits (c :: cs) = dropDigits cs := by simp [dropDigits, hc]
+      rw [e] at h
+      intro x hx
+      rcases List.mem_cons.mp hx with h' | h'
+      · rw [h']; exact hc
+      · exact ih h x h'
+    · exfalso
+      have e : dropDigits (c :: cs) = c :: cs := by simp [dropDigits, hc]
+      rw [e] at h; cases h
+
+theorem pyExponentFull_shape (t : Str) (h : pyExponentFull t = true) :
+    ∃ e sg ed, t = e :: (sg ++ ed) ∧ (e = 'e' ∨ e = 'E') ∧ (sg = [] ∨ sg = ['+'] ∨ sg = ['-']) ∧ Digits ed := by
+  unfold pyExponentFull at h
+  split at h
+  · next e r =>
+    split at h
+    · next he =>
+      have he' : e = 'e' ∨ e = 'E' := by simpa using he
+      simp only at h
+      split at h
+      · next d r1' heq =>
+        simp only [Bool.and_eq_true] at h
+        rw [heq] at h
+        have hd : Digits (d :: r1') := ⟨by simp, dropDigits_nil_digits _ h.2⟩
+        split at heq
+        · next t' => exact ⟨e, ['+'], d :: r1', by rw [heq]; rfl, he', Or.inr (Or.inl rfl), hd⟩
+        · next t' => exact ⟨e, ['-'], d :: r1', by rw [heq]; rfl, he', Or.inr (Or.inr rfl), hd⟩
+        · exact ⟨e, [], d :: r1', by rw [heq]; rfl, he', Or.inl rfl, hd⟩
+      · cases h
+    · cases h
+  · cases h
+
+theorem dropDigits_split (s : Str) : ∃ d, s = d ++ dropDigits s ∧ (∀ x ∈ d, isDigitA x = true) ∧
+    (∀ c, (dropDigits s).head? = some c → isDigitA c = false) := by
+  induction s with
+  | nil => exact ⟨[], rfl, by simp, by simp [dropDigits]⟩
+  | cons c cs ih =>
+    by_cases hc : isDigit c = true
+    · have e : dropDigits (c :: cs) = dropDigits cs := by simp [dropDigits, hc]
+      obtain ⟨d, h1, h2, h3⟩ := ih
+      refine ⟨c :: d, by rw [e, List.cons_append, ← h1], ?_, by rw [e]; exact h3⟩
+      intro x hx
+      rcases List.mem_cons.mp hx with h' | h'
+      · rw [h']; exact hc
+      · exact h2 x h'
+    · have e : dropDigits (c :: cs) = c :: cs := by simp [dropDigits, hc]
+      refine ⟨[], by rw [e]; rfl, by simp, ?_⟩
+      rw [e]
+      intro x hx
+      have : c = x := by simpa using hx
+      subst this
+      simpa [isDigit_eq_isDigitA] using hc
+
+theorem dropDigits_of_head (t : Str) (h : ∀ c, t.head? = some c → isDigitA c = false) : dropDigits t = t := by
+  cases t with
+  | nil => rfl
+  | cons c r =>
+    have : isDigit c = false := h c rfl
+    simp [dropDigits, this]
+
+def ExpOK (exp : Option (Char × Str × Str)) : Prop :=
+  ∀ e sg ed, exp = some (e, sg, ed) → (e = 'e' ∨ e = 'E') ∧ (sg = [] ∨ sg = ['+'] ∨ sg = ['-']) ∧ Digits ed
+
+theorem pyTail_exp (t : Str) (h : (t.isEmpty || pyExponentFull t) = true) : ∃ exp, t = expS exp ∧ ExpOK exp := by
+  rcases Bool.or_eq_true_iff.mp h with h | h
+  · have ht : t = [] := by simpa using h
+    exact ⟨none, by rw [ht]; rfl, fun e sg ed he => by cases he⟩
+  · obtain ⟨e, sg, ed, ht, h1, h2, h3⟩ := pyExponentFull_shape t h
+    exact ⟨some (e, sg, ed), ht, fun e' sg' ed' he => by cases he; exact ⟨h1, h2, h3⟩⟩
+
+theorem pyNumberTail_shape (t : Str) (hhead : ∀ c, t.head? = some c → isDigitA c = false) (h : pyNumberTail t = true) :
+    ∃ frac exp, t = fracS frac ++ expS exp ∧ (∀ d2, frac = some d2 → ∀ x ∈ d2, isDigitA x = true) ∧ ExpOK exp := by
+  unfold pyNumberTail at h
+  simp only at h
+  split at h
+  · next r =>
+    obtain ⟨d2, hr, hd2, _⟩ := dropDigits_split r
+    obtain ⟨exp, he, hok⟩ := pyTail_exp _ h
+    refine ⟨some d2, exp, ?_, fun d hd => by cases hd; exact hd2, hok⟩
+    rw [← he]
+    show '.' :: r = '.' :: (d2 ++ dropDigits r)
+    rw [← hr]
+  · rw [dropDigits_of_head t hhead] at h
+    obtain ⟨exp, he, hok⟩ := pyTail_exp _ h
+    exact ⟨none, exp, by rw [← he]; rfl, (fun d hd => by cases hd), hok⟩
+
+/-- the digits part: `s1` starts with a digit and the rest is a tail. -/
+theorem pyNumberBody_shape (s1 : Str) (c : Char) (r : Str) (hs : s1 = c :: r) (hc : isDigit c = true)
+    (h : pyNumberTail (dropDigits s1) = true) :
+    ∃ d1 frac exp, s1 = d1 ++ (fracS frac ++ expS exp) ∧ Digits d1 ∧
+      (∀ d2, frac = some d2 → ∀ x ∈ d2, isDigitA x = true) ∧ ExpOK exp := by
+  obtain ⟨d1, h1, h2, h3⟩ := dropDigits_split s1
+  obtain ⟨frac, exp, ht, hf, he⟩ := pyNumberTail_shape _ h3 h
+  refine ⟨d1, frac, exp, by rw [← ht]; exact h1, ⟨?_, h2⟩, hf, he⟩
+  intro hd
+  subst hd
+  rw [List.nil_append] at h1
+  have := h3 c (by rw [← h1, hs]; rfl)
+  rw [isDigit_eq_isDigitA] at hc
+  rw [hc] at this; cases this
+
+/-- **every text accepted by `pyNumberFull` is a NUMBER lexeme with well-formed parts.** -/
+theorem pyNumberFull_shape (s : Str) (h : pyNumberFull s = true) : ∃ p : NumParts, p.OK ∧ p.text = s := by
+  unfold pyNumberFull at h
+  simp only at h
+  split at h
+  · next c r heq =>
+    rw [heq] at h
+    simp only [Bool.and_eq_true] at h
+    obtain ⟨d1, frac, exp, hs, hd1, hf, he⟩ := pyNumberBody_shape (c :: r) c r rfl h.1 h.2
+    split at heq
+    · next r0 =>
+      exact ⟨⟨true, d1, frac, exp⟩, ⟨hd1, hf, he⟩, by rw [NumParts.text, ← hs, heq]; rfl⟩
+    · exact ⟨⟨false, d1, frac, exp⟩, ⟨hd1, hf, he⟩, by rw [NumParts.text, ← hs, heq]; rfl⟩
+  · cases h
+
+/-! ### the compiled NUMBER fragment's shape, and the value step -/
+
+/-- what follows the integer digits in the compiled NUMBER fragment: nothing, or `.` digit+ (then end of text). -/
+def gbnfFrac : Str → Bool
+  | [] => true
+  | '.' :: r2 =>
+    match r2 with
+    | d :: _ => isDigit d && (dropDigits r2).isEmpty
+    | [] => false
+  | _ => false
+
+/-- full match of `"-"? [0-9]+ ("." [0-9]+)?` — the language of the compiled TYPE[NUMBER] fragment
+(`numberAlts` / `number_sound` in `gbnf/Octave/Props/C13.lean`). -/
+def gbnfNumber (s : Str) : Bool :=
+  let s1 := match s with
+    | '-' :: r => r
+    | _ => s
+  match s1 with
+  | c :: _ => isDigit c && gbnfFrac (dropDigits s1)
+  | [] => false
+
+theorem gbnfFrac_tail (t : Str) (h : gbnfFrac t = true) : pyNumberTail t = true := by
+  unfold gbnfFrac at h
+  split at h
+  · rfl
+  · next r2 =>
+    split at h
+    · next d r3 =>
+      simp only [Bool.and_eq_true] at h
+      unfold pyNumberTail
+      simp only [h.2, Bool.true_or]
+    · cases h
+  · cases h
+
+/-- the compiled fragment's language is inside the reader's NUMBER pattern. -/
+theorem gbnfNumber_pyNumberFull (s : Str) (h : gbnfNumber s = true) : pyNumberFull s = true := by
+  unfold gbnfNumber at h
+  unfold pyNumberFull
+  simp only at h ⊢
+  split at h
+  · next c r heq =>
+    rw [heq] at h
+    simp only [Bool.and_eq_true] at h
+    have hpy := gbnfFrac_tail _ h.2
+    split at heq
+    · next r0 =>
+      subst heq
+      simp only [Bool.and_eq_true]
+      exact ⟨h.1, hpy⟩
+    · next hnd =>
+      subst heq
+      simp only [Bool.and_eq_true]
+      exact ⟨h.1, hpy⟩
+  · cases h
+
+theorem gbnfFrac_shape (t : Str) (h : gbnfFrac t = true) : t = [] ∨ ∃ d2, t = '.' :: d2 ∧ Digits d2 := by
+  unfold gbnfFrac at h
+  split at h
+  · exact Or.inl rfl
+  · next r2 =>
+    split at h
+    · next d r3 =>
+      simp only [Bool.and_eq_true] at h
+      exact Or.inr ⟨d :: r3, rfl, by simp, dropDigits_nil_digits _ h.2⟩
+    · cases h
+  · cases h
+
+/-- the parts of a text of the compiled NUMBER fragment: sign, digits, optionally `.` and at least one digit; no exponent. -/
+theorem gbnfNumber_shape (s : Str) (h : gbnfNumber s = true) :
+    ∃ p : NumParts, p.OK ∧ p.text = s ∧ p.exp = none ∧ ∀ d2, p.frac = some d2 → d2 ≠ [] := by
+  unfold gbnfNumber at h
+  simp only at h
+  split at h
+  · next c r heq =>
+    rw [heq] at h
+    simp only [Bool.and_eq_true] at h
+    obtain ⟨d1, h1, h2, h3⟩ := dropDigits_split (c :: r)
+    have hd1 : Digits d1 := by
+      refine ⟨?_, h2⟩
+      intro hd
+      subst hd
+      rw [List.nil_append] at h1
+      have := h3 c (by rw [← h1]; rfl)
+      have hc := h.1
+      rw [isDigit_eq_isDigitA] at hc
+      rw [hc] at this; cases this
+    have key : ∃ frac, c :: r = d1 ++ (fracS frac ++ expS none) ∧ (∀ d2, frac = some d2 → Digits d2) := by
+      rcases gbnfFrac_shape _ h.2 with ht | ⟨d2, ht, hd2⟩
+      · exact ⟨none, by rw [ht] at h1; exact h1, fun d hd => by cases hd⟩
+      · exact ⟨some d2, by rw [ht] at h1; simpa [fracS, expS] using h1, fun d hd => by cases hd; exact hd2⟩
+    obtain ⟨frac, hs, hf⟩ := key
+    split at heq
+    · next r0 =>
+      exact ⟨⟨true, d1, frac, none⟩, ⟨hd1, fun d hd => (hf d hd).2, fun e sg ed he => by cases he⟩,
+        by rw [NumParts.text, ← hs, heq]; rfl, rfl, fun d hd => (hf d hd).1⟩
+    · exact ⟨⟨false, d1, frac, none⟩, ⟨hd1, fun d hd => (hf d hd).2, fun e sg ed he => by cases he⟩,
+        by rw [NumParts.text, ← hs, heq]; rfl, rfl, fun d hd => (hf d hd).1⟩
+  · cases h
+
+/-- in the compiled fragment's language the int lexemes are exactly the texts without `.`. -/
+theorem gbnfNumber_isInt (s : Str) (h : gbnfNumber s = true) : isIntLexeme s = !s.contains '.' := by
+  obtain ⟨p, hp, rfl, hexp, _⟩ := gbnfNumber_shape s h
+  cases hi : isIntLexeme p.text with
+  | true =>
+    have hc : (p.text.contains '.' || p.text.contains 'e' || p.text.contains 'E') = false := by
+      simp only [isIntLexeme, Bool.not_eq_true'] at hi; exact hi
+    simp only [Bool.or_eq_false_iff] at hc
+    rw [hc.1.1]; rfl
+  | false =>
+    have : ¬ (p.frac = none ∧ p.exp = none) := fun hh => by
+      rw [(p.isInt_iff hp).mpr hh] at hi; cases hi
+    have hfr : p.frac ≠ none := fun hf => this ⟨hf, hexp⟩
+    obtain ⟨neg, d1, frac, exp⟩ := p
+    cases frac with
+    | none => exact absurd rfl hfr
+    | some d2 =>
+      have : ('.' : Char) ∈ (NumParts.mk neg d1 (some d2) exp).text := by simp [NumParts.text, fracS]
+      rw [contains_true _ _ this]; rfl
+
+/-- a representable NUMBER lexeme before the line end: the value step `tokenize_field` asks for. -/
+theorem numParts_valueStep (env : Env) (lenient : Bool) (p : NumParts) (hp : p.OK) (hrep : Representable env p.text) :
+    ValueStep env lenient p.text (numScalar env p.text) := by
+  intro st rest hr
+  obtain ⟨st', h1, h2⟩ := step_numParts env lenient st p hp ('\n' :: rest) hr (floatTerm_nl env rest) hrep
+  exact ⟨st', _, h1, h2⟩
+
+/-- the first four steps on `fieldText F s`: the lexer stands at the value, line 2, column `1 + |F| + 2`. -/
+theorem run_field_prefix (env : Env) (lenient : Bool) (F s : Str) (hF : KeyOK F) :
+    ∃ st', Run env lenient 4 ({ spans := [] } : LState) (fieldText F s) st' (s ++ '\n' :: ("===END===".toList ++ ['\n'])) ∧
+      Ready st' ∧ st'.line = 2 ∧ st'.col = 1 + F.length + 2 := by
+  let st0 : LState := { spans := [] }
+  obtain ⟨s1, e1, a1⟩ := step_envStart env lenient st0 "D".toList
+    ('\n' :: (F ++ (':' :: ':' :: (s ++ '\n' :: ("===END===".toList ++ ['\n']))))) rfl (by decide) (by decide)
+  obtain ⟨s2, e2, a2⟩ := step_newline env lenient s1 (F ++ (':' :: ':' :: (s ++ '\n' :: ("===END===".toList ++ ['\n'])))) a1.ready
+  obtain ⟨s3, e3, a3⟩ := step_ident env lenient s2 F (':' :: ':' :: (s ++ '\n' :: ("===END===".toList ++ ['\n']))) a2.ready
+    hF.1 hF.2.1 (termOK_colon env _)
+  obtain ⟨s4, e4, a4⟩ := step_assign env lenient s3 (s ++ '\n' :: ("===END===".toList ++ ['\n'])) a3.ready
+  have hFne : F ≠ [] := by
+    intro h; have := hF.1; rw [h] at this; simp [isIdentifierText] at this
+  have run := Run.trans (run_of_step (by simp) e1) (Run.trans (run_of_step (by simp) e2) (Run.trans (run_of_step (by simp [hFne]) e3)
+    (run_of_step (by simp) e4)))
+  rw [← fieldText_shape] at run
+  have l1 : s1.line = 1 := by rw [a1.line]
+  have l2 : s2.line = 2 := by rw [a2.line, l1]
+  have l3 : s3.line = 2 := by rw [a3.line, l2]
+  have c2 : s2.col = 1 := a2.col
+  have c3 : s3.col = 1 + F.length := by rw [a3.col, c2]
+  exact ⟨s4, run, a4.ready, by rw [a4.line, l3], by rw [a4.col, c3]⟩
+
+/-- **a value the lexer refuses**: if the step at the value raises E005 there, `tokenize` raises E005 at line 2,
+column `1 + |F| + 2` (the first character of the value). -/
+theorem tokenize_field_refused (env : Env) (lenient : Bool) (F s : Str) (hF : KeyOK F) (hclean : Clean s) (hne : s ≠ [])
+    (hstep : ∀ (st : LState) (rest : Str), Ready st →
+      step env lenient st (s ++ '\n' :: rest) = .error (.lexer "E005".toList st.line st.col))
+    (hnfc : NfcStable env F s) :
+    tokenize env (fieldText F s) lenient = .error (.lexer "E005".toList 2 (1 + F.length + 2)) := by
+  have hnorm := normalize_field env F s hF hclean hnfc
+  have htab := tabCheck_noTab [] (fieldText F s) 0 1 1 (fieldText_noTab F s hF hclean)
+  obtain ⟨st', run, hr, hl, hc⟩ := run_field_prefix env lenient F s hF
+  have hlen : 4 + 1 ≤ (fieldText F s).length := by
+    rw [fieldText_eq]; simp
+  obtain ⟨f, hf⟩ : ∃ f, (fieldText F s).length + 1 = (f + 1) + 4 := ⟨(fieldText F s).length - 4, by omega⟩
+  obtain ⟨c, t, hct⟩ := List.exists_cons_of_ne_nil hne
+  have hloop : loop env lenient ((fieldText F s).length + 1) ({ spans := [] } : LState) (fieldText F s)
+      = .error (.lexer "E005".toList 2 (1 + F.length + 2)) := by
+    rw [hf, run.loop (f + 1)]
+    have hs := hstep st' ("===END===".toList ++ ['\n']) hr
+    rw [hl, hc, hct] at hs
+    rw [hct]
+    show loop env lenient (f + 1) st' (c :: (t ++ '\n' :: ("===END===".toList ++ ['\n']))) = _
+    rw [loop]
+    simp only [bind, Except.bind]
+    have hs' : step env lenient st' (c :: (t ++ '\n' :: ("===END===".toList ++ ['\n']))) =
+        .error (.lexer "E005".toList 2 (1 + F.length + 2)) := hs
+    rw [hs']
+  unfold tokenize
+  simp only [hnorm, htab, hloop, bind, Except.bind]
 
 end Octave.C13
